@@ -109,6 +109,41 @@ def idsVerdict (pre tag : String) (src s e ds impl : String) : Verdict := Id.run
 
 def handle (op : String) (args : List String) (impl : String) : Option Verdict :=
   match op, args with
+  | "appboot", [k, conf, head, doms] => some <| Id.run do
+    let some k := k.toInt? | return bad
+    let some conf := conf.toInt? | return bad
+    let some head := head.toInt? | return bad
+    -- per domain: wiring and initial store content
+    let some ws := (items doms ",").mapM (fun d =>
+      if d == "L" then some ((⟨0, true, false, head⟩ : Wiring), (none : Option Int))
+      else if d.startsWith "c" then ((d.drop 1).toString.toInt?).map fun v => (⟨v, false, false, head⟩, none)
+      else if d.startsWith "s" then ((d.drop 1).toString.toInt?).map fun v => (⟨0, false, false, head⟩, some v)
+      else none) | return bad
+    if k == 0 then return bad
+    let cfg : Cfg := ⟨.evm, k, conf, 1⟩
+    let starts := ws.map fun (w, st) => startOf cfg w st
+    let m := ";".intercalate (starts.map fun s => match s with
+      | some c => s!"{c}-{c + k - 1}+{c + k}-{c + 2 * k - 1}"
+      | none => "?")
+    -- property: every range the real app.Run makes the node read is a cell of the partition fixed by the interval,
+    -- consecutive ranges are adjacent, and a domain with a start block does not begin above it
+    let parts := impl.splitOn ";"
+    let ok := parts.length == ws.length && (parts.zip ws).all fun (p, (w, st)) =>
+      match (p.splitOn "+").mapM (fun r => match r.splitOn "-" with
+        | [a, b] => do pure ((← a.toInt?), (← b.toInt?))
+        | _ => none) with
+      | some [(a1, b1), (a2, b2)] =>
+        decide (a1 % k = 0 ∧ b1 = a1 + k - 1 ∧ a2 = b1 + 1 ∧ b2 = a2 + k - 1) && (w.latest || decide (a1 ≤ gsb w st))
+      | _ => false
+    return ⟨m, ok, s!"appboot:domains={min ws.length 3}:latest={ws.any (·.1.latest)}:stored={ws.any (·.2.isSome)}"⟩
+  | "evmsigsession", args => some <| Id.run do
+    -- the ids the signing processes RUN under = the ids of the delivery's signed batches, `<messageID>-<batch index>`
+    let some one := Sygma.Drv.C14.handle "exec" args "" | return bad
+    if one.model == "err" then return ⟨"-", impl == "-", "evmsigsession:lookup-error"⟩
+    let sids := ((items one.model ";").map fun it => (it.splitOn "=").headD "").mergeSort (· ≤ ·)
+    let m := joinOr sids ","
+    let distinct := (items impl ",").eraseDups.length == (items impl ",").length
+    return ⟨m, impl == m && distinct, s!"evmsigsession:batches={min sids.length 3}"⟩
   | "subsession", [msgId, statuses] => some <| Id.run do
     let pending := (items statuses ",").any (· == "p")
     -- the Substrate executor signs a delivery under its message id — for every relayer, fresh or not
